@@ -381,6 +381,15 @@ HOSTILE = [
     'macro_rules! stringify { ($($t:tt)*) => { compile_error!("hostile stringify! was invoked by derived code") } }',
 ]
 
+BODY_CONTEXTS = {
+    'fn': (['pub fn inner() {'], ['}']),
+    'block': (['pub fn inner() { {'], ['} }']),
+    'const': (['const _: () = {'], ['};']),
+    'implfn': (['pub struct Host;', 'impl Host { pub fn inner(&self) {'], ['} }']),
+    'traitfn': (['pub trait Host { fn inner(&self) {'], ['} }']),
+    'closure': (['pub fn inner() { let _c = || {'], ['}; }']),
+}
+
 def render_module(mod, decl, cfg, hostile=False, **kw):
     """one instance = one module.  A declaration with vis 'pub(in crate::MOD)' is nested one level deeper so that
     the path names an ancestor module.  hostile=True adds user items, modules and macros named like prelude / core
@@ -388,11 +397,27 @@ def render_module(mod, decl, cfg, hostile=False, **kw):
     hdr = ['    #![no_implicit_prelude]', '    #![allow(dead_code, non_camel_case_types, unused_imports, unused_macros)]', '    use ::enum_tools::EnumTools;']
     if hostile:
         hdr += ['    ' + h for h in HOSTILE]
-    if decl.get('context') == 'fn':
-        # the enum is an item inside a function body
-        body = ['pub mod %s {' % mod, '    #![allow(dead_code, non_camel_case_types, unused_imports, unused_macros)]', '    pub fn inner() {', '        use ::enum_tools::EnumTools;']
+    cx = decl.get('context')
+    if cx in BODY_CONTEXTS:
+        # the enum is an item inside a function body / block / anonymous constant / method body
+        open_, close_ = BODY_CONTEXTS[cx]
+        body = ['pub mod %s {' % mod, '    #![allow(dead_code, non_camel_case_types, unused_imports, unused_macros)]'] + ['    ' + l for l in open_] + ['        use ::enum_tools::EnumTools;']
         body += ['        ' + l for l in render_enum(decl, cfg, **kw)]
-        body += ['    }', '}']
+        body += ['    ' + l for l in close_] + ['}']
+        return body
+    if cx == 'macro':
+        # the whole item passes through a macro_rules! transcriber; the enum's name, visibility and repr arrive as fragments
+        en = decl.get('enum_name', 'E')
+        d2 = dict(decl); d2['enum_name'] = '$name'; d2['vis'] = '$v'; d2['repr'] = '$r'
+        body = ['pub mod %s {' % mod] + hdr
+        body += ['    macro_rules! mk { ($v:vis, $name:ident, $r:ident) => {'] + ['        ' + l for l in render_enum(d2, cfg, **kw)] + ['    } }']
+        body += ['    mk!(%s, %s, %s);' % (decl['vis'], en, decl['repr']), '}']
+        return body
+    if cx == 'macro_tt':
+        # the item is passed as raw token trees through a macro and a nested macro
+        body = ['pub mod %s {' % mod] + hdr
+        body += ['    macro_rules! pass { ($($t:tt)*) => { pass2!{ $($t)* } } }', '    macro_rules! pass2 { ($($t:tt)*) => { $($t)* } }', '    pass! {']
+        body += ['        ' + l for l in render_enum(decl, cfg, **kw)] + ['    }', '}']
         return body
     if 'MOD' in (decl['vis'] or ''):
         d2 = dict(decl); d2['vis'] = decl['vis'].replace('MOD', mod)
